@@ -1,0 +1,65 @@
+//! Verification hooks, compiled only with the `verif` feature (off by default).
+//!
+//! Pass-through wrappers around the private transactional key-value overlay,
+//! so that it can be driven directly from outside the crate. The wrappers add
+//! no behaviour of their own: every call is forwarded unchanged.
+
+use crate::error::AnyResult;
+use crate::transactions::{transactional as inner_transactional, RepLog, StorageTransaction};
+use cosmwasm_std::{Order, Record, Storage};
+
+/// Pass-through wrapper around the private write-cache type.
+pub struct Overlay<'a>(StorageTransaction<'a>);
+
+impl<'a> Overlay<'a> {
+    /// Creates a new write-cache over the provided base storage.
+    pub fn new(base: &'a dyn Storage) -> Self {
+        Overlay(StorageTransaction::new(base))
+    }
+
+    /// Ends the write-cache and returns its log, ready to be committed.
+    pub fn prepare(self) -> OverlayLog {
+        OverlayLog(self.0.prepare())
+    }
+}
+
+impl Storage for Overlay<'_> {
+    fn get(&self, key: &[u8]) -> Option<Vec<u8>> {
+        self.0.get(key)
+    }
+
+    fn range<'b>(
+        &'b self,
+        start: Option<&[u8]>,
+        end: Option<&[u8]>,
+        order: Order,
+    ) -> Box<dyn Iterator<Item = Record> + 'b> {
+        self.0.range(start, end, order)
+    }
+
+    fn set(&mut self, key: &[u8], value: &[u8]) {
+        self.0.set(key, value)
+    }
+
+    fn remove(&mut self, key: &[u8]) {
+        self.0.remove(key)
+    }
+}
+
+/// Pass-through wrapper around the private replay log of a write-cache.
+pub struct OverlayLog(RepLog);
+
+impl OverlayLog {
+    /// Replays the logged operations into the provided storage.
+    pub fn commit(self, storage: &mut dyn Storage) {
+        self.0.commit(storage)
+    }
+}
+
+/// Pass-through to the private `transactional` helper.
+pub fn transactional<F, T>(base: &mut dyn Storage, action: F) -> AnyResult<T>
+where
+    F: FnOnce(&mut dyn Storage, &dyn Storage) -> AnyResult<T>,
+{
+    inner_transactional(base, action)
+}
